@@ -119,7 +119,7 @@ theorem dropWhile_found {idx : Nat} {l : List Tr} (h : ∃ t ∈ l, t.idx = idx)
   | nil => simp at h
   | cons a as ih =>
     by_cases ha : a.idx = idx
-    · exact ⟨a, as, by simp [List.dropWhile_cons, ha], ha⟩
+    · exact ⟨a, as, by simp [ha], ha⟩
     · have : ∃ t ∈ as, t.idx = idx := by
         obtain ⟨t, ht, hti⟩ := h
         simp only [List.mem_cons] at ht
